@@ -4,9 +4,12 @@ import re
 
 import apicheck as A
 import htmlobs as HO
+import linkobs as L
 
 PROFILE = dict(p_hyperlink=0.35, p_field=0.35, p_bookmark=0.25, p_note=0.35, p_comment=0.25, p_table=0.15, p_cross_par_field=0.15, style_map=0.3,
-               separators=False, p_image=0.0, p_textbox=0.05, hostile=0.2, p_embedded_map=0.0, bang=0.0)
+               separators=False, p_image=0.0, p_textbox=0.05, hostile=0.2, p_embedded_map=0.0, bang=0.0,
+               # targets / field URLs that a URL library would re-serialise; the same note / comment referenced again
+               p_odd_target=0.6, p_note_repeat=0.3, p_comment_repeat=0.3)
 
 
 def graph(value):
@@ -73,6 +76,9 @@ def connected(case, r):
     return probs[:4]
 
 
+OBSERVERS = [connected, L.href_problems, L.comment_problems]
+
+
 def run(out, tier, seed, model_ok):
     n = common.deepen(1500 if tier == "quick" else 20000)
     cs = A.gen_cases(seed, n, PROFILE, sm=dict(hid=0, hostile=0.1), tag="c10-")
@@ -83,16 +89,20 @@ def run(out, tier, seed, model_ok):
             c["options"]["styleMap"] = "\n".join(l for l in c["options"]["styleMap"].split("\n") if "[id" not in l.replace("\\", "") and "[href" not in l.replace("\\", ""))
         if i % 3 == 0:
             c["options"]["styleMap"] = (c["options"].get("styleMap") or "") + "\ncomment-reference => sup"
-    run_ = A.ApiRun(out, "C10", model_ok, project, observers=[connected], name="links")
+    run_ = A.ApiRun(out, "C10", model_ok, project, observers=OBSERVERS, name="links")
     run_.run(cs, nontrivial=lambda c, r: any(f.startswith(("note-", "hyperlink-", "field-", "bookmark", "comment")) for f in c["features"]))
     out.rule = ("documents with any interleaving of external / internal / field-code hyperlinks (nested fields, fields spanning runs and paragraphs, split instruction text, "
                 "HYPERLINK with and without further switches), bookmarks, footnote/endnote references in body and tables, comment references, arbitrary id_prefix, comment "
                 "mapping on/off; observation = the (href, label, target, id) list of every anchor and the id list, compared with the Lean model, plus independent checks: "
                 "every id starts with id_prefix, the k-th note reference is labelled [k], links to the k-th note item, whose back-link returns to it, every generated # href "
                 "resolves; non-trivial = uses a link, field, bookmark, note or comment")
+    out.rule += ("; also: relationship targets and field URLs in the spellings a URL library would re-serialise (scheme case, drive letters, UNC and file://// forms, `?` before "
+                 "`#`, existing / empty fragments, surrounding blanks) with and without w:anchor, the same note or comment referenced several times with further references "
+                 "after it; independent checks: every external href is character by character a target (fragment replaced by the anchor) or a quoted field URL, the k-th comment "
+                 "reference <-> k-th comment entry <-> back-link")
     out.extra["features"] = run_.stats
     out.sample({"options": cs[0]["options"], "features": cs[0]["features"]})
 
 
 def replay(out, payload, model_ok):
-    A.replay_case(out, "C10", model_ok, payload, project, [connected])
+    A.replay_case(out, "C10", model_ok, payload, project, OBSERVERS)
